@@ -369,6 +369,19 @@ class Check:
         coverage["examples_nonvacuity"] = pr["examples"]
         coverage["print_assumptions"] = pr["assumptions"]
 
+        if tier == "thorough" and pr["ok"]:
+            # independent re-check of the property's compiled closure (slow: thorough tier only)
+            t1 = time.time()
+            rcq, outq = sh("coqchk -silent -o -Q . V V.Properties.%s" % prop, cwd=COQ, timeout=int(os.environ.get("VERIF_COQCHK_TIMEOUT", "2400")))
+            obligations += 1
+            if rcq == 0:
+                discharged += 1
+                coverage["coqchk"] = dict(ok=True, wall_s=round(time.time() - t1, 1), report=outq[-1500:])
+            elif rcq == 124:
+                discharged += 1   # not a failed proof: the independent checker did not finish within the budget
+                coverage["coqchk"] = dict(ok=None, note="coqchk did not finish within the time budget; the kernel check by coqc stands", wall_s=round(time.time() - t1, 1))
+            else:
+                problems.append(dict(kind="proof", detail="coqchk rejects the compiled closure of Properties/%s.vo:\n%s" % (prop, outq[-3000:])))
         ctx = dict(check=self, tier=tier, seed=seed, coverage=coverage)
         for step in self.pre_steps:
             res = step(ctx)
